@@ -58,6 +58,10 @@ struct Obl
     /// The frame (run) that was busy when this obligation was postponed.
     postponed_on: Option<RunId>,
     run: Option<RunId>,
+    /// Trace positions of the postponement and of the start of the discharging run (mark re-assignment among
+    /// interchangeable deliveries, see `check_boundary`).
+    postponed_at: usize,
+    run_at: usize,
 }
 
 #[derive(Clone, Debug)]
@@ -110,6 +114,8 @@ struct AEnt
 {
     /// Harness holds an auto-despawn signal for this entity.
     signal: bool,
+    /// Clones of the signal captured by actor closures (released when the actor's system state is dropped).
+    actor_signals: u32,
     /// The signal has been dropped: despawned (with descendants) by the next garbage collection.
     doomed: bool,
     alive: bool,
@@ -270,6 +276,7 @@ pub struct MonitorOut
     pub polled_runs: u32,
     pub max_depth: u32,
     pub cross_sender_reorder: u32,
+    pub marks_reassigned: u32,
     pub outcome_hash: u64,
 }
 
@@ -296,6 +303,9 @@ pub struct Monitor<'a>
     root_cmd: Option<CmdId>,
     root_cmd_pos: usize,
     teardown: bool,
+    /// A garbage-collection pass is in progress (only drop events have been seen since its hook): the pass drains the
+    /// channel until it is empty, so whatever the drops of this pass release is collected by the same pass.
+    gc_open: bool,
     pos: usize,
     out: MonitorOut,
     /// Removal tracking is active for a component once any removal reactor for it has been registered.
@@ -319,17 +329,17 @@ impl<'a> Monitor<'a>
             alive: true, doomed: false, must_be_dead: false, variant: *v, runs: 0, once: false, once_ran: false,
             refcounted: false, sampled_from: 0, canary_dropped: false, killed: false,
         }).collect();
-        let mut ents: Vec<AEnt> = (0..cfg.n_ents).map(|i| AEnt{ signal: cfg.auto_ents.contains(&i), doomed: false, alive: true, comps: [None, None], parent: None }).collect();
+        let mut ents: Vec<AEnt> = (0..cfg.n_ents).map(|i| AEnt{ signal: cfg.auto_ents.contains(&i), actor_signals: cfg.actor_signals.iter().filter(|(_, e)| *e == i).count() as u32, doomed: false, alive: true, comps: [None, None], parent: None }).collect();
         for (c, p) in cfg.children.iter() { ents[*c as usize].parent = Some(*p); }
         Monitor{
             cfg, actors, ents,
             regs: Vec::new(), groups: Vec::new(), tokens: Vec::new(), res: 0,
             obls: Vec::new(), frames: Vec::new(), runners: Vec::new(), payloads: HashMap::new(), polled: Vec::new(), fifos: HashMap::new(),
-            issued: HashMap::new(), pending: Pending::None, root_sub_boundary: 0, root_cmd: None, root_cmd_pos: 0, teardown: false,
+            issued: HashMap::new(), pending: Pending::None, root_sub_boundary: 0, root_cmd: None, root_cmd_pos: 0, teardown: false, gc_open: false,
             pos: 0,
             out: MonitorOut{
                 violations: Vec::new(), state_hashes: Vec::new(), transitions: 0, runs: 0, postponed: 0, aborted: 0,
-                polled_runs: 0, max_depth: 0, cross_sender_reorder: 0, outcome_hash: 0,
+                polled_runs: 0, max_depth: 0, cross_sender_reorder: 0, marks_reassigned: 0, outcome_hash: 0,
             },
             removal_tracked: [false, false],
             desynced: false,
@@ -443,7 +453,7 @@ impl<'a> Monitor<'a>
                         actor: r.actor, kind: Kind::Despawn, source: Some(Name::Ent(e)), payload: None,
                         creator: self.cur_cmd().unwrap_or(CmdId{ by: Issuer::Top, idx: u16::MAX }),
                         created_at: at, polled: true, state: OState::Created, optional, holds_group: holds, seq,
-                        postponed_on: None, run: None,
+                        postponed_on: None, run: None, postponed_at: 0, run_at: 0,
                     });
                 }
                 t if t.entity() == Some(e) => { self.regs[i].live = false; }
@@ -484,7 +494,7 @@ impl<'a> Monitor<'a>
         let seq = self.obls.len();
         self.obls.push(Obl{
             actor, kind, source, payload, creator: cmd, created_at: self.pos, polled: false,
-            state: OState::Created, optional, holds_group: None, seq, postponed_on: None, run: None,
+            state: OState::Created, optional, holds_group: None, seq, postponed_on: None, run: None, postponed_at: 0, run_at: 0,
         });
         if let Some(p) = payload
         {
@@ -736,7 +746,7 @@ impl<'a> Monitor<'a>
             Op::DropSignal(e) =>
             {
                 let x = &mut self.ents[e as usize];
-                if x.signal { x.signal = false; if x.alive { x.doomed = true; } }
+                if x.signal { x.signal = false; if x.alive && x.actor_signals == 0 { x.doomed = true; } }
             }
         }
     }
@@ -881,7 +891,42 @@ impl<'a> Monitor<'a>
             }
         }
         let _ = closing;
+        // Marks are one of possibly several consistent assignments of replayed runs to interchangeable postponed
+        // deliveries (same target, same observable data, no payload). Before reporting a delivery of this boundary as
+        // not replayed, look for an interchangeable delivery *outside* this boundary's scope that is marked as
+        // replayed after this one was postponed: the run may equally have been this one's, and the other delivery is
+        // then judged at its own boundary.
+        let mut bad2: Vec<(usize, &'static str)> = Vec::new();
         for (i, why) in bad
+        {
+            if why == "postponed-not-replayed" && self.obls[i].payload.is_none()
+            {
+                let o = self.obls[i].clone();
+                let swap = self.obls.iter().position(|x| x.actor == o.actor && x.created_at < since
+                    && x.kind == o.kind && x.source == o.source && x.payload.is_none() && x.postponed_on.is_some()
+                    && matches!(x.state, OState::Running | OState::Exited | OState::Done) && x.run_at > o.postponed_at);
+                if let Some(j) = swap
+                {
+                    let (si, sj) = (self.obls[i].state, self.obls[j].state);
+                    self.obls[i].state = sj;
+                    self.obls[j].state = si;
+                    let (ri, rj) = (self.obls[i].run, self.obls[j].run);
+                    self.obls[i].run = rj;
+                    self.obls[j].run = ri;
+                    let (ai, aj) = (self.obls[i].run_at, self.obls[j].run_at);
+                    self.obls[i].run_at = aj;
+                    self.obls[j].run_at = ai;
+                    for f in self.frames.iter_mut()
+                    {
+                        if f.obl == Some(j) { f.obl = Some(i); } else if f.obl == Some(i) { f.obl = Some(j); }
+                    }
+                    self.out.marks_reassigned += 1;
+                    continue;
+                }
+            }
+            bad2.push((i, why));
+        }
+        for (i, why) in bad2
         {
             let o = self.obls[i].clone();
             // report once
@@ -1349,6 +1394,7 @@ impl<'a> Monitor<'a>
                     }
                     self.obls[i].state = OState::Postponed;
                     self.obls[i].postponed_on = self.busy_frame(actor);
+                    self.obls[i].postponed_at = self.pos;
                 }
             }
             Decision::AbortDead | Decision::AbortNoComponent | Decision::AbortRootMissing =>
@@ -1513,6 +1559,7 @@ impl<'a> Monitor<'a>
                 }
                 self.obls[i].state = OState::Running;
                 self.obls[i].run = Some(id);
+                self.obls[i].run_at = self.pos;
                 if self.obls[i].polled { self.out.polled_runs += 1; }
                 self.frames.push(Frame{ id, obl: Some(i), body_exited: false, sub_boundary: self.pos, cur_cmd: None, issued: 0, applied: 0 });
             }
@@ -1890,6 +1937,7 @@ impl<'a> Monitor<'a>
             self.last_event_was_root_exit = matches!(ev, TEv::Hook(Hook::RunnerExit{ counter: 0, .. }));
         }
         if self.desynced { if let TEv::Panic(m) = ev { self.viol("*", "panic", "panic".into(), m.clone()); } return; }
+        if !matches!(ev, TEv::CanaryDrop(_) | TEv::Drop(_) | TEv::Hook(Hook::Gc)) { self.gc_open = false; }
         match ev
         {
             TEv::Top{ cmd, issued } => { self.issued.insert(*cmd, issued.clone()); }
@@ -1911,7 +1959,7 @@ impl<'a> Monitor<'a>
                 Hook::RunnerEnter{ target, counter } => self.on_runner_enter(*target, *counter),
                 Hook::RunnerDecision{ target, decision } => self.on_decision(*target, *decision),
                 Hook::RunnerBodyDone{ .. } => {}
-                Hook::Gc => { self.gc_point(); }
+                Hook::Gc => { self.gc_point(); self.gc_open = true; }
                 Hook::RunnerReinsert{ target, reinserted } =>
                 {
                     let pos = self.pos;
@@ -1970,6 +2018,21 @@ impl<'a> Monitor<'a>
                     }
                 }
                 if let Some(x) = self.actors.get_mut(*a as usize) { x.canary_dropped = true; }
+                // signal clones captured by the closure are released with it
+                if !self.teardown
+                {
+                    let owned: Vec<EntId> = self.cfg.actor_signals.iter().filter(|(x, _)| x == a).map(|(_, e)| *e).collect();
+                    for e in owned
+                    {
+                        let x = &mut self.ents[e as usize];
+                        if x.actor_signals > 0
+                        {
+                            x.actor_signals -= 1;
+                            if x.actor_signals == 0 && !x.signal && x.alive { x.doomed = true; }
+                        }
+                    }
+                    if self.gc_open { self.gc_point(); }
+                }
             }
             TEv::Quiescent{ snap, live } => self.on_quiescent(snap, live),
             TEv::Value{ what, .. } =>
